@@ -645,7 +645,9 @@ func propC16(c *Ctx) {
 			}
 			for _, p := range c.Paths(ab, PO{NoInline: []string{"types.ValidateGenesis"}}) {
 				o.Paths++
-				calls := p.Find(func(ev *Event) bool { return ev.Kind == EvCall && strings.HasSuffix(ev.Call.Name, "types.ValidateGenesis") })
+				calls := p.Find(func(ev *Event) bool {
+					return ev.Kind == EvCall && strings.HasSuffix(ev.Call.Name, "types.ValidateGenesis")
+				})
 				if p.OK() && !p.Panic {
 					if len(calls) != 1 || !p.factIsOrRet(p.Events[calls[0]].Call) {
 						o.Fail(c.W.Pos(ab.Pos()), "success without a successful types.ValidateGenesis", c.Dump(p, -1))
